@@ -138,7 +138,7 @@ def run(F, R, tier):
     # ---------------- C12-g (cache entries are complete) ---------------------
     ITEM_T = "FastCheckCacheModuleItem"
     cpush = [n for n in bf["_nodes"] if n.get("k") == "MethodCall" and n["name"] == "push" and tyc(F, n["recv"], ITEM_T) and peel(n["recv"]).get("res") == "local"]
-    R.floor("C12-g cache item pushes", len(cpush), 3)
+    R.floor("C12-g cache item pushes", len(cpush), 2)
     loops = []
     for n in cpush:
         lp = [a for a in k_ancestors(n) if a["k"] == "For"]
